@@ -14,8 +14,9 @@ use crate::read::{
     DebugRngLists, DebugStr, DebugStrOffsets, DebugTuIndex, DebugTypes, DebugTypesUnitHeadersIter,
     DebuggingInformationEntry, EntriesCursor, EntriesRaw, EntriesTree, Error,
     IncompleteLineProgram, IndexSectionId, LocListIter, LocationLists, MacroIter, Range,
-    RangeLists, RawLocListIter, RawRngListIter, Reader, ReaderOffset, ReaderOffsetId, Result,
-    RngListIter, Section, UnitHeader, UnitIndex, UnitIndexSectionIterator, UnitOffset, UnitType,
+    RangeLists, RawLocListIter, RawRngListIter, Reader, ReaderAddress, ReaderOffset,
+    ReaderOffsetId, Result, RngListIter, Section, UnitHeader, UnitIndex, UnitIndexSectionIterator,
+    UnitOffset, UnitType,
 };
 use crate::{DebugMacroOffset, constants};
 
@@ -626,7 +627,10 @@ impl<R: Reader> Dwarf<R> {
             }
         }
         let range = low_pc.and_then(|begin| {
-            let end = size.map(|size| begin + size).or(high_pc);
+            let address_size = unit.encoding().address_size;
+            let end = size
+                .map(|size| begin.wrapping_add_sized(size, address_size))
+                .or(high_pc);
             // TODO: perhaps return an error if `end` is `None`
             end.map(|end| Range { begin, end })
         });
